@@ -169,6 +169,63 @@ def run_config(chk, facts, cfg):
     chk.ob("C01-c", f"hand-written unsafe impls in font-types: {unsafe_impls}", unsafe_impls == want, key="unsafe-impls",
            detail=f"expected exactly {want}")
 
+    # ---- C01-c2: instantiations that no call makes -- type aliases and field types ---------------------------------
+    chk.rule("C01-c2", "T-TYPE: a generic type whose methods cast bytes to a *bare* type parameter (read_ref_at::<T>, read_array::<T>, "
+                       "directly or by forwarding T to such a type) is never instantiated -- by a type alias or a field type of the "
+                       "reader crates -- with a native multi-byte number: `X<u16>` would be cast from unaligned bytes (panic in "
+                       "bytemuck, and native byte order otherwise; F35).  Instantiations that are *called* are covered by C01-c")
+    PRIM = re.compile(r"(?<![\w:<])(u16|i16|u32|i32|u64|i64|u128|i128|usize|isize|f32|f64)(?![\w>]*::)\b")
+    ZC = re.compile(r"(FontData::<'a>::|Cursor::<'a>::)(read_ref_at|read_array|read_ref|read_array_unchecked|read_ref_unchecked)$")
+
+    def adt_names_in(path):
+        return set(re.findall(r"([A-Za-z_][\w:]*::[A-Z]\w*)(?=<|::<|>| as |$)", path))
+    adts = {r["path"] for c in (RF, "skrifa", "font_types") if c in facts.crates for r in facts.records("adt", c)}
+    owners = set()
+    bare = re.compile(r"(^|[\[, ])T/#\d+|(^|[\[, ])[A-Z]\w*/#\d+")
+    for rnd in range(3):
+        before = len(owners)
+        for b in facts.all_bodies(RF):
+            for bb, t in b.calls():
+                ca = t.d.get("cargs") or ""
+                if not isinstance(ca, str) or not bare.search(ca):
+                    continue
+                hit = ZC.search(t.callee) is not None and re.search(r"(^|[\[, ])[A-Z]\w*/#\d+\]?$|, [A-Z]\w*/#\d+[\],]", ca) is not None \
+                    and not re.search(r"<[A-Z]\w*/#\d+>", ca)
+                fwd = any(o.split("::")[-1] + "<" in t.callee or o.split("::")[-1] + "::<" in t.callee for o in owners) and \
+                    not re.search(r"BigEndian<[A-Z]\w*/#\d+>", ca)
+                if hit or fwd:
+                    for a in adts:
+                        short = a.split("::")[-1]
+                        if re.search(r"\b" + re.escape(short) + r"(<|::<)", b.path) and a.startswith("read_fonts::tables"):
+                            owners.add(a)
+        if len(owners) == before:
+            break
+    chk.anchor("C01-c2", "generic types that cast bytes to a bare type parameter (StateEntry<T> ..)", sorted(owners))
+    n_inst = 0
+    insts = []
+    for c in (RF, "skrifa"):
+        if c not in facts.crates:
+            continue
+        for r in facts.records("alias", c):
+            insts.append((r["path"], r["ty"], r["file"], r["line"], "type alias"))
+        for r in facts.records("adt", c):
+            for v in r.get("variants") or []:
+                for fld in v[1]:
+                    insts.append((f"{r['path']}.{fld[0]}", fld[1], r["file"], r["line"], "field type"))
+    for name, ty, file, line, what in insts:
+        for o in owners:
+            for m in re.finditer(re.escape(o) + r"<([^<>]*(?:<[^<>]*>[^<>]*)*)>", ty):
+                n_inst += 1
+                args = [a.strip() for a in re.split(r",(?![^<]*>)", m.group(1))]
+                bad = [a for a in args if PRIM.fullmatch(a)]
+                chk.ob("C01-c2", f"{what} {name} = ..{o.split('::')[-1]}<{m.group(1)[:50]}>", not bad,
+                       key=f"zc-inst|{name}|{o}", file=file, line=int(line), fn=name,
+                       detail=f"{o} casts bytes to its type parameter without a byte-order wrapper; instantiating it with `{bad}` "
+                              f"(alignment > 1, native byte order) makes its accessors panic at odd addresses and return "
+                              f"byte-swapped values elsewhere: use BigEndian<..>")
+    chk.stats["C01-c2:owners"] = sorted(owners)
+    chk.floor("C01-c2", "alias / field instantiations of such types", n_inst, 1)
+
     # ---- C01-f -----------------------------------------------------------------------------------
     chk.rule("C01-f", "T-PURE: read-fonts forbids unsafe code and contains none; font-types/read-fonts have no mutable or "
                       "interior-mutable statics and make no time/env/random/thread calls; pointer-to-integer casts only feed differences")
